@@ -5,7 +5,7 @@
       has not linked yet [gpv], and its last store to a hazard cell within the current operation [gsl] ([gac]: whether it made such a store at all).
       [PhiG]: what every event of a trace of the model satisfies, given the summary of the trace before it (proved for
       all programs in DhpLiveGcC).  [PhiD] / [cell_disc]: the discipline of thread_hp_storage and hp_allocator, a
-      property of the trace that is NOT proved (see DhpLiveGcD). *)
+      property of the trace (proved for every reachable trace in DhpLiveGxE .. GxP: [dhp_cell_disc]). *)
 From Coq Require Import ZArith NArith List String Bool Lia PeanoNat.
 From LV Require Import Base.Conc Base.Events Model.DhpLang Model.Dhp Proofs.DhpBase Proofs.DhpHist
   Proofs.DhpLiveA Proofs.DhpLiveB.
@@ -172,12 +172,13 @@ Definition PhiG (st : GS) (u : nat) (e : ev) : Prop :=
   (forall s, gcls e = GOwn s -> exists j, gop st u = [3%Z; zn j] /\ gfind (gmp st u) j = None) /\
   (gcls e = GRelall -> gop st u = [2%Z]) /\
   (forall args, gcls e = GRet args -> gop st u <> [] /\
-     forall j k, gop st u = [7%Z; zn j; zn k] -> exists s n, gfind (gmp st u) j = Some s /\ gsl st u = Some (n, s)).
+     forall j k, gop st u = [7%Z; zn j; zn k] -> exists s n, gfind (gmp st u) j = Some s /\ gsl st u = Some (n, s)) /\
+  (forall args, gcls e = GOp args -> Forall (fun z => (0 <= z)%Z) args).
 
 Definition TPropG (tr : list (nat * ev)) : Prop :=
   forall m u e, nth_error tr m = Some (u, e) -> PhiG (gfold (firstn m tr)) u e.
 
-(** ** the discipline of thread_hp_storage / hp_allocator (NOT proved): a Guard is given a cell of the thread's own
+(** ** the discipline of thread_hp_storage / hp_allocator (proved in DhpLiveGxP, [dhp_cell_disc]): a Guard is given a cell of the thread's own
        attached record that no Guard of any thread holds; the cells of a block that is being initialised after it was
        taken from the allocator do not belong to an attached record *)
 Definition ownc (c : cfg) (h : H) (u : nat) (s : gref) : Prop :=
